@@ -84,6 +84,32 @@ func HarnessC13Grpc() {
 		}
 	}
 	verifAssert(stub.calls == 1, "C13: one statement execution is exactly one RPC")
+	// the same prepared statement again, with other arguments: the rows of those arguments
+	if len(q.args) > 0 && stub.fault == 0 && !q.wantErr {
+		vals2 := []sqldriver.Value{}
+		args2 := []string{}
+		for range q.args {
+			vals2 = append(vals2, "y")
+			args2 = append(args2, "y")
+		}
+		q2 := drvQuery{text: q.text, groupBy: q.groupBy, args: args2, match: c13gRebind(q.text)}
+		r2, err2 := st.Query(vals2)
+		verifAssert(err2 == nil, "C13: a prepared statement on the grpc path failed when executed again")
+		if err2 == nil && q2.match != nil {
+			drvCheckRows("C13 grpc path, prepared statement executed again with other arguments", q2, rows, r2)
+		}
+	}
 	idx.Close()
 	verifReach("end")
+}
+
+// c13gRebind: the meaning of the two argument-taking query texts when every argument is "y".
+func c13gRebind(text string) func(r drvRow) bool {
+	switch text {
+	case `a = $1 | b = $1 ; a`:
+		return func(r drvRow) bool { return r["a"] == "y" || has(r, "b", "y") }
+	case `(a = $2 & b = $1) | a = $2 ; b, a`:
+		return func(r drvRow) bool { return r["a"] == "y" }
+	}
+	return nil
 }
